@@ -24,12 +24,18 @@ Theorem C15_applied_everywhere : forall (e : entry) (stmts : list statement) sql
 Proof. exact applied_everywhere_flags. Qed.
 Print Assumptions C15_applied_everywhere.
 
-(* Second tie (DESIGN 3.5, docs/gotrans.md): sqlToken as translated from db/state.go on this run (fuelled; strings as
-   byte lists) returns, for every non-empty text and enough fuel, the kind and length the model's tokenizer g_token
-   returns — the tokenizer under `guard` / C15_guard_complete. *)
+(* Second tie (DESIGN 3.5, docs/gotrans.md): the guard itself.  IsBreakingPragma and sqlToken as translated from
+   db/state.go on this run (fuelled; strings as byte lists; strings.TrimLeftFunc(_, unicode.IsSpace) = the model's
+   go_trim_left) are, for enough fuel, the hand model's `guard` (what C15_guard_complete is about) and its tokenizer
+   g_token. *)
 From Coq Require Import ZArith List.
-From RQ Require Import Lib.GoLib Gen.SqlToken Proofs.C15_Gen.
-Theorem C15_source_derived_eq : forall (s : bytes) (fuel : nat), s <> nil -> (List.length s < fuel)%nat ->
-  sqlToken (zs s) fuel = Some (kind_code (fst (g_token s)), Z.of_nat (snd (g_token s))).
-Proof. exact gen_sqlToken_eq. Qed.
+From RQ Require Import Lib.GoLib.
+From RQ Require Import Gen.SqlToken.
+From RQ Require Import Proofs.C15_Gen.
+Theorem C15_source_derived_eq :
+  (forall (text : bytes) (fuel : nat), (List.length text + 1 < fuel)%nat ->
+     IsBreakingPragma trim (zs text) fuel = guard text) /\
+  (forall (s : bytes) (fuel : nat), s <> nil -> (List.length s < fuel)%nat ->
+     sqlToken (zs s) fuel = Some (kind_code (fst (g_token s)), Z.of_nat (snd (g_token s)))).
+Proof. exact (conj gen_IsBreakingPragma_eq gen_sqlToken_eq). Qed.
 Print Assumptions C15_source_derived_eq.
